@@ -10,6 +10,11 @@ For every validated file (`Proofs/Generator`, `Proofs/TableCells`; no per-gramma
   * `C17_cells` — an ACTION cell is non-error iff an item of its state demands it there (reduce `A → α` exactly on
     the lookaheads of `[A → α·]`, accept on end of input for `[S' → S·]`, shift to the transition's target on the
     terminal right of a dot), GOTO cells are exactly the nonterminal transitions, everything else is `Err`/`None`.
+  * `C17_is_lalr1` — the textbook definition itself: the generated automaton is the canonical LR(1) collection
+    (`Machine.CanonState`: closure of `[S' → ·S, $]`; closures of the moved items of a canonical state) merged by
+    core: every canonical state lies inside exactly one machine state, which has the same cores; every item of a
+    machine state lies in a canonical state with that state's cores; every machine state is the merge of at least
+    one canonical state.
 What relates `Deriv` to the textbook definition is that the FIRST map is *exact*: it is proved closed under the
 FIRST equations (`Proofs/First`, which gives completeness w.r.t. derivation trees: `Valid.first_complete_aux`)
 and sound (`Proofs/FirstSound`: a terminal in `FIRST(B)` begins a sentential form derived from `B`, a nullable
@@ -22,6 +27,7 @@ import KikiVerif.Proofs.Generator
 import KikiVerif.Proofs.TableCells
 import KikiVerif.Proofs.Encode
 import KikiVerif.Proofs.FirstSound
+import KikiVerif.Proofs.Canonical
 
 namespace KikiVerif.C17
 open KikiVerif.Table KikiVerif.Machine KikiVerif.LR
@@ -67,6 +73,19 @@ theorem C17_one_state_per_core (vf : VFile.File) (enc : Encode.Enc) (m : Machine
   obtain ⟨fm, _, mok⟩ := machineOf_ok (Encode.encode_ok he).terms hm
   exact ⟨mok.distinct, mok.func⟩
 
+/-- **C17, the definition of the LALR(1) automaton**: canonical LR(1) collection merged by core -/
+theorem C17_is_lalr1 (vf : VFile.File) (enc : Encode.Enc) (m : Machine) (fuel : Nat)
+    (he : Encode.encode vf = some enc) (hm : machineOf enc.ctx fuel = some (some m)) :
+    ∃ fm, firstSets enc.ctx fuel = some (some fm) ∧
+      (∀ I, CanonState enc.ctx fm I → ∃ s, s < m.states.length ∧ SameCoresPS I (m.states.getD s []) ∧
+          ∀ y, I y → y ∈ m.states.getD s []) ∧
+      (∀ s, s < m.states.length → ∀ y ∈ m.states.getD s [],
+          ∃ I, CanonState enc.ctx fm I ∧ SameCoresPS I (m.states.getD s []) ∧ I y) ∧
+      (∀ s, s < m.states.length → ∃ I, CanonState enc.ctx fm I ∧ SameCoresPS I (m.states.getD s [])) := by
+  have ok := Encode.encode_ok he
+  obtain ⟨fm, hfm, mok⟩ := machineOf_ok ok.terms hm
+  exact ⟨fm, hfm, lalr_exact ok (firstSets_closed hfm).2.1 mok⟩
+
 theorem C17_cells (c : Ctx) (m : Machine) (t : Table) (h : machineToTable c m = .ok t) :
     (∀ s col, col ≤ c.nT → (t.action s col ≠ .err ↔
       ∃ st it, m.states[s]? = some st ∧ it ∈ st ∧ Table.demand c m s it = some (col, t.action s col))) ∧
@@ -100,5 +119,6 @@ end KikiVerif.C17
 
 #print axioms KikiVerif.C17.C17_items_exact
 #print axioms KikiVerif.C17.C17_one_state_per_core
+#print axioms KikiVerif.C17.C17_is_lalr1
 #print axioms KikiVerif.C17.C17_cells
 #print axioms KikiVerif.C17.C17_empty_table
